@@ -8,6 +8,11 @@
  *   fault alloc <i>.. | fault add <i>:<w|m>.. | fault accept <i>..
  *   trig <conn> <threshold> <retain w|shut|exit|handexit k2>
  *   conn k | hand k | send k n [chunk..] | cclose k | wrel w | wshut w | xexit | sync | sleep us
+ *   prehand k..   hand-overs done before the loop thread exists (their wake-ups are one notification)
+ *   burst k.. | burstmt k..   back-to-back hand-overs (burstmt: one thread each); with a "stall" trigger
+ *                 the loop thread is held inside cb_msg meanwhile, so the wake-ups coalesce
+ *   await k       wait (bounded) until the server has read everything sent on k; logs "await k recv sent"
+ *   trig <conn> <threshold> stall
  *   pipe writers=<W> per=<K> seed=<s> rfrag=<0..2> wfrag=<0|1> psize=<bytes|0>
  */
 #define _GNU_SOURCE
@@ -38,8 +43,8 @@
 #define MAXTRIG 256
 #define MAXCHUNK 64
 
-enum { A_RETAIN = 1, A_SHUT, A_EXIT, A_HANDEXIT };
-enum { S_CONN = 1, S_HAND, S_SEND, S_CCLOSE, S_WREL, S_WSHUT, S_XEXIT, S_SYNC, S_SLEEP };
+enum { A_RETAIN = 1, A_SHUT, A_EXIT, A_HANDEXIT, A_STALL };
+enum { S_CONN = 1, S_HAND, S_SEND, S_CCLOSE, S_WREL, S_WSHUT, S_XEXIT, S_SYNC, S_SLEEP, S_PREHAND, S_BURST, S_BURSTMT, S_AWAIT };
 
 struct trig { int conn; long thr; int act; int arg; int fired; };
 struct step { int op; int a; long n; int nch; int ch[MAXCHUNK]; };
@@ -198,14 +203,69 @@ static muggle_socket_context_t *make_ctx(int fd, int type, int conn, int *out_id
 	*out_id = id;
 	return ctx;
 }
-static void hand_pair(int k)
+/* "hand c" is logged before muggle_socket_evloop_add_ctx is called and "handed c" after it has
+ * returned (enqueued + wake-up written).  Producers are serialised by g_prod so that the order
+ * of the "handed" lines is the order of the enqueues. */
+static pthread_mutex_t g_prod = PTHREAD_MUTEX_INITIALIZER;
+static int g_stalled, g_unstall;
+static void hand_ctx(muggle_socket_context_t *ctx, int id)
 {
-	int sp[2], id;
-	if (socketpair(AF_UNIX, SOCK_STREAM, 0, sp) != 0) { sh_logf("cfail %d", k); return; }
-	cl_fd[k] = sp[0]; cl_ok[k] = 1;
-	muggle_socket_context_t *ctx = make_ctx(sp[1], MUGGLE_SOCKET_CTX_TYPE_TCP_CLIENT, k, &id);
+	pthread_mutex_lock(&g_prod);
 	sh_logf("hand %d", id);
 	muggle_socket_evloop_add_ctx(g_evloop, ctx);
+	sh_logf("handed %d", id);
+	pthread_mutex_unlock(&g_prod);
+}
+static muggle_socket_context_t *make_pair(int k, int *id)
+{
+	int sp[2];
+	if (socketpair(AF_UNIX, SOCK_STREAM, 0, sp) != 0) { sh_logf("cfail %d", k); return NULL; }
+	cl_fd[k] = sp[0]; cl_ok[k] = 1;
+	return make_ctx(sp[1], MUGGLE_SOCKET_CTX_TYPE_TCP_CLIENT, k, id);
+}
+static void hand_pair(int k)
+{
+	int id;
+	muggle_socket_context_t *ctx = make_pair(k, &id);
+	if (ctx) hand_ctx(ctx, id);
+}
+struct burst_arg { muggle_socket_context_t *ctx; int id; };
+static void *burst_thread(void *arg)
+{
+	struct burst_arg *b = (struct burst_arg *)arg;
+	hand_ctx(b->ctx, b->id);
+	return NULL;
+}
+static void do_burst(struct step *s, int mt)
+{
+	struct burst_arg ba[MAXCHUNK]; pthread_t th[MAXCHUNK]; int n = 0;
+	for (int i = 0; i < s->nch; i++) {
+		int k = s->ch[i];
+		if (k < 0 || k >= MAXCONN || cl_ok[k]) continue;
+		ba[n].ctx = make_pair(k, &ba[n].id);
+		if (ba[n].ctx) n++;
+	}
+	/* if a stall trigger is configured, wait (bounded) until the loop thread sits in it */
+	int has_stall = 0;
+	for (int i = 0; i < c_ntrig; i++) if (c_trig[i].act == A_STALL && !c_trig[i].fired) has_stall = 1;
+	if (has_stall || __atomic_load_n(&g_stalled, __ATOMIC_SEQ_CST)) {
+		double t0 = now_s();
+		while (!__atomic_load_n(&g_stalled, __ATOMIC_SEQ_CST) && now_s() - t0 < 0.3) msleep_(1);
+	}
+	if (mt) {
+		for (int i = 0; i < n; i++) pthread_create(&th[i], NULL, burst_thread, &ba[i]);
+		for (int i = 0; i < n; i++) pthread_join(th[i], NULL);
+	} else {
+		for (int i = 0; i < n; i++) hand_ctx(ba[i].ctx, ba[i].id);
+	}
+	__atomic_store_n(&g_unstall, 1, __ATOMIC_SEQ_CST);
+}
+static void do_await(int k)
+{
+	double t0 = now_s();
+	while (cl_ok[k] && __atomic_load_n(&sv_recv[k], __ATOMIC_SEQ_CST) < cl_sent[k] && now_s() - t0 < 2.0 &&
+		!__atomic_load_n(&g_returned, __ATOMIC_SEQ_CST)) msleep_(1);
+	sh_logf("await %d %ld %ld", k, __atomic_load_n(&sv_recv[k], __ATOMIC_SEQ_CST), cl_sent[k]);
 }
 
 /* ---- triggers (loop thread, inside callbacks) ---- */
@@ -218,7 +278,7 @@ static int run_triggers(muggle_event_loop_t *evloop, muggle_socket_context_t *ct
 	for (int i = 0; i < c_ntrig; i++) {
 		struct trig *t = &c_trig[i];
 		if (t->conn != k || t->fired || sv_recv[k] < t->thr) continue;
-		if (in_wake && t->act == A_HANDEXIT) continue;
+		if (in_wake && (t->act == A_HANDEXIT || t->act == A_STALL)) continue;
 		t->fired = 1;
 		switch (t->act) {
 		case A_RETAIN: {
@@ -238,6 +298,15 @@ static int run_triggers(muggle_event_loop_t *evloop, muggle_socket_context_t *ct
 			sh_logf("exitreq");
 			muggle_evloop_exit(evloop);
 			break;
+		case A_STALL: {
+			/* hold the loop thread here while the script's next burst hands its contexts over */
+			sh_logf("stalled");
+			__atomic_store_n(&g_stalled, 1, __ATOMIC_SEQ_CST);
+			double t0 = now_s();
+			while (!__atomic_load_n(&g_unstall, __ATOMIC_SEQ_CST) && now_s() - t0 < 1.0) msleep_(1);
+			__atomic_store_n(&g_stalled, 0, __ATOMIC_SEQ_CST);
+			sh_logf("unstall");
+		} break;
 		case A_HANDEXIT:
 			__atomic_store_n(&g_exit_req, 1, __ATOMIC_SEQ_CST);
 			if (t->arg >= 0 && t->arg < MAXCONN && !cl_ok[t->arg]) hand_pair(t->arg);
@@ -318,6 +387,11 @@ static void cb_add_ctx(muggle_event_loop_t *evloop, muggle_socket_context_t *ctx
 	if (id == g_listener_id) __atomic_store_n(&g_listener_state, 1, __ATOMIC_SEQ_CST);
 	if (id >= 0 && ctx->sock_type != MUGGLE_SOCKET_CTX_TYPE_TCP_LISTEN)
 		run_triggers(evloop, ctx, id, ctx_conn[id], 1);
+}
+static void cb_wake(muggle_event_loop_t *evloop)
+{
+	(void)evloop;
+	sh_logf("wake");           /* on_wake is over (called after the queue loop, mutex released) */
 }
 static void cb_msg(muggle_event_loop_t *evloop, muggle_socket_context_t *ctx)
 {
@@ -488,6 +562,7 @@ static void run_socket_case(void)
 	for (int i = 0; i < SH_MAXCTX; i++) ctx_conn[i] = -1;
 	g_alloc_calls = 0; g_exit_req = 0; g_returned = 0; g_acc_done = 0; g_connects = 0;
 	g_listener_state = 0; g_listener_id = -1; g_srv_rng = c_seed ^ 0x5151515151ULL;
+	g_stalled = 0; g_unstall = 0;
 
 	muggle_event_loop_init_args_t args;
 	memset(&args, 0, sizeof(args));
@@ -500,6 +575,7 @@ static void run_socket_case(void)
 	muggle_socket_evloop_handle_set_cb_close(&g_handle, cb_close);
 	muggle_socket_evloop_handle_set_cb_release(&g_handle, cb_release);
 	muggle_socket_evloop_handle_set_cb_add_ctx(&g_handle, cb_add_ctx);
+	muggle_socket_evloop_handle_set_cb_wake(&g_handle, cb_wake);
 	muggle_socket_evloop_handle_set_alloc_free(&g_handle, NULL, cb_alloc, cb_free);
 	muggle_socket_evloop_handle_attach(&g_handle, g_evloop);
 
@@ -507,6 +583,19 @@ static void run_socket_case(void)
 	if (g_listen_fd < 0) { printf("SETUPFAIL listen\n"); return; }
 	muggle_socket_context_t *lctx = make_ctx(g_listen_fd, MUGGLE_SOCKET_CTX_TYPE_TCP_LISTEN, -1, &g_listener_id);
 
+	/* hand-overs before the loop thread exists: the listener's and the prehand contexts' wake-ups
+	 * are one notification of the event signal */
+	int prehand = 0;
+	for (int i = 0; i < c_nstep; i++) if (c_step[i].op == S_PREHAND) prehand = 1;
+	if (prehand) {
+		hand_ctx(lctx, g_listener_id);
+		for (int i = 0; i < c_nstep; i++)
+			if (c_step[i].op == S_PREHAND)
+				for (int j = 0; j < c_step[i].nch; j++) {
+					int k = c_step[i].ch[j];
+					if (k >= 0 && k < MAXCONN && !cl_ok[k]) hand_pair(k);
+				}
+	}
 	pthread_t lth;
 	pthread_create(&lth, NULL, loop_main, NULL);
 	for (int w = 0; w < c_workers; w++) {
@@ -514,8 +603,7 @@ static void run_socket_case(void)
 		pthread_mutex_init(&g_w[w].mtx, NULL); pthread_cond_init(&g_w[w].cv, NULL);
 		pthread_create(&g_w[w].th, NULL, worker_main, (void *)(intptr_t)w);
 	}
-	sh_logf("hand %d", g_listener_id);
-	muggle_socket_evloop_add_ctx(g_evloop, lctx);
+	if (!prehand) hand_ctx(lctx, g_listener_id);
 	{
 		double t0 = now_s();
 		while (__atomic_load_n(&g_listener_state, __ATOMIC_SEQ_CST) == 0 && now_s() - t0 < 2.0) msleep_(1);
@@ -537,6 +625,10 @@ static void run_socket_case(void)
 			break;
 		case S_SYNC: do_sync(); break;
 		case S_SLEEP: { struct timespec ts = { 0, s->a * 1000L }; nanosleep(&ts, NULL); } break;
+		case S_BURST: if (!__atomic_load_n(&g_exit_req, __ATOMIC_SEQ_CST)) do_burst(s, 0); break;
+		case S_BURSTMT: if (!__atomic_load_n(&g_exit_req, __ATOMIC_SEQ_CST)) do_burst(s, 1); break;
+		case S_AWAIT: do_await(s->a); break;
+		case S_PREHAND: break;
 		}
 	}
 	/* no exit in the script: let the server consume what is in flight (keeps replays of shrunk
@@ -672,7 +764,7 @@ static void case_line(char *line)
 		struct trig *t = &c_trig[c_ntrig++];
 		t->conn = k; t->thr = thr; t->fired = 0; t->arg = arg;
 		t->act = strcmp(act, "retain") == 0 ? A_RETAIN : strcmp(act, "shut") == 0 ? A_SHUT :
-			strcmp(act, "exit") == 0 ? A_EXIT : A_HANDEXIT;
+			strcmp(act, "exit") == 0 ? A_EXIT : strcmp(act, "stall") == 0 ? A_STALL : A_HANDEXIT;
 		if (t->act == A_RETAIN && (arg < 0 || arg >= MAXW)) c_ntrig--;
 	} else {
 		if (c_nstep >= MAXSTEP) return;
@@ -689,6 +781,17 @@ static void case_line(char *line)
 		else if (strcmp(op, "xexit") == 0) s->op = S_XEXIT;
 		else if (strcmp(op, "sync") == 0) s->op = S_SYNC;
 		else if (strcmp(op, "sleep") == 0) s->op = S_SLEEP;
+		else if (strcmp(op, "await") == 0) s->op = S_AWAIT;
+		else if (strcmp(op, "prehand") == 0 || strcmp(op, "burst") == 0 || strcmp(op, "burstmt") == 0) {
+			s->op = strcmp(op, "prehand") == 0 ? S_PREHAND : strcmp(op, "burst") == 0 ? S_BURST : S_BURSTMT;
+			char *p = line + strlen(op);
+			while (*p && s->nch < MAXCHUNK) {
+				while (*p == ' ') p++;
+				if (!*p) break;
+				s->ch[s->nch++] = (int)strtol(p, &p, 10);
+			}
+			s->a = 0;
+		}
 		else if (strcmp(op, "send") == 0) {
 			s->op = S_SEND;
 			char *p = line + pos;
@@ -700,7 +803,7 @@ static void case_line(char *line)
 				s->ch[s->nch++] = (int)strtol(p, &p, 10);
 			}
 		} else return;
-		if ((s->op == S_CONN || s->op == S_HAND || s->op == S_SEND || s->op == S_CCLOSE) && (a < 0 || a >= MAXCONN)) return;
+		if ((s->op == S_CONN || s->op == S_HAND || s->op == S_SEND || s->op == S_CCLOSE || s->op == S_AWAIT) && (a < 0 || a >= MAXCONN)) return;
 		if ((s->op == S_WREL || s->op == S_WSHUT) && (a < 0 || a >= MAXW)) return;
 		c_nstep++;
 	}
